@@ -300,6 +300,10 @@ Example C05_outside_domain_same_id_different_data :
   end.
 Proof. exact f_cc_outside. Qed.
 
+(* Remaining exclusions of [opts_ok] besides D51, both user errors that the library does not validate: a custom key_map
+   that maps two keys to one short name (the second overwrites the first member silently), and user meta that uses a
+   reserved header key ($generator, $format_version, $key_map, $value_map: header.update(meta) overwrites it). *)
+
 (* A5. Bridge to reachable states: every well-formed state of the mutation machine (Mut/WF.v, preserved by every
        operation: C01) has unique node ids different from the root's and unique sibling data_ids; the two remaining
        conditions of [tree_ok] are about the data ([kinds_ok]: the tree class; [clones_consistent]: A4). *)
